@@ -6,8 +6,8 @@ export CARGO_NET_OFFLINE=true
 cargo build --release --offline --target-dir target/cfg_a --features cfg_a
 cargo build --release --offline --target-dir target/cfg_a -p tvm
 cargo build --release --offline --target-dir target/cfg_b --no-default-features --features cfg_b
-# payloads without drop glue; the crate with debug assertions and overflow checks on
+# payloads without drop glue; the crate unoptimised with debug assertions and overflow checks on (the dev profile)
 cargo build --release --offline --target-dir target/cfg_p --features cfg_a,plain_payloads
-CARGO_PROFILE_RELEASE_DEBUG_ASSERTIONS=true CARGO_PROFILE_RELEASE_OVERFLOW_CHECKS=true cargo build --release --offline --target-dir target/cfg_d --features cfg_a
+CARGO_PROFILE_RELEASE_DEBUG_ASSERTIONS=true CARGO_PROFILE_RELEASE_OVERFLOW_CHECKS=true CARGO_PROFILE_RELEASE_OPT_LEVEL=0 cargo build --release --offline --target-dir target/cfg_d --features cfg_a
 mkdir -p ../work ../replays ../evidence
 echo setup ok
